@@ -792,10 +792,15 @@ class Gen:
                     sc.last = v
                     return
         inner = self.inner_of(cls)
-        if r < 8 and inner is not None and not self.avoided("method-on-self-field"):
+        # a receiver read from a field does not carry its class into the callee frame (like K.m(o, x) and bound-method
+        # values): methods that call through self are entered this way only while that finding is not stepped over
+        inner_names = self.indirect_entry_names(inner, self.plain_methods(inner)) if inner is not None else []
+        if r < 8 and inner is not None and inner_names and not self.avoided("method-on-self-field"):
             v = sc.mod.fresh("r")
-            sc.emit("%s = self.inner.%s(%s)" % (v, self.ch.pick(self.plain_methods(inner)), self.arg(sc)),
+            imn = self.ch.pick(inner_names)
+            sc.emit("%s = self.inner.%s(%s)" % (v, imn, self.arg(sc)),
                     "method-on-self-field", "local")
+            self.note_indirect_entry(inner, imn)
             sc.last = v
             return
         if r < 8 and self.init_info(cls)[1] == "cb" and not self.avoided("stored-field-self"):
@@ -1003,10 +1008,13 @@ class Gen:
             for _ in range(n):
                 self.method_call(sc, o, cls, via)
             inner = self.inner_of(cls)
-            if inner is not None and ch.chance(60) and not self.avoided("method-on-field", self.class_via(cls, via)):
+            inner_names = self.indirect_entry_names(inner, self.plain_methods(inner)) if inner is not None else []
+            if inner is not None and inner_names and ch.chance(60) and not self.avoided("method-on-field", self.class_via(cls, via)):
                 v = sc.mod.fresh("v")
-                sc.emit("%s = %s.inner.%s(%s)" % (v, o, ch.pick(self.plain_methods(inner)), self.arg(sc)),
+                imn = ch.pick(inner_names)
+                sc.emit("%s = %s.inner.%s(%s)" % (v, o, imn, self.arg(sc)),
                         "method-on-field", self.class_via(cls, via))
+                self.note_indirect_entry(inner, imn)
                 sc.last = v
             me = self.find_method(cls, "me")
             if me is not None and ch.chance(70) and not self.avoided("method-on-returned-self", self.class_via(cls, via)):
